@@ -1,12 +1,16 @@
 // C06: VM values behave as immutable byte strings.
 //
-// Every program of <= 3 (thorough <= 4) instructions over the C06 alphabet is run on every
-// argument list of 1-3 items of lengths {0,1,4,33} (two content schemes), supplied in three
-// memory layouts: independent exact-capacity buffers; consecutive sub-slices of one shared
-// buffer (program first, then the arguments, as the transaction decoder's ReadVarstr31
-// produces them) with spare capacity; the same with the state data following in the buffer.
+// Every program of <= 3 (thorough <= 4) instructions over the C06 alphabet, plus two structured
+// families of longer programs (a copy-making prefix followed by any single opcode; the same
+// wrapped into a CHECKPREDICATE child whose failure the parent survives), is run on every
+// argument list of 1-3 items of lengths {0,1,4,32,33} (three content schemes), supplied in up
+// to four memory layouts: independent exact-capacity buffers; consecutive sub-slices of one
+// shared buffer (program first, then the arguments, as the transaction decoder's ReadVarstr31
+// produces them) with spare capacity; the same with the state data following in the buffer;
+// the same with arguments of equal / contained value handed out as the SAME bytes.
 // Each run is stepped through the VM's own step() in lock-step with a value-semantics
-// reference interpreter (ref.go).
+// reference interpreter (ref.go); memory is inspected after every instruction, the failing one
+// included.
 package main
 
 import (
@@ -16,6 +20,7 @@ import (
 	"os"
 	"runtime"
 	"runtime/debug"
+	"runtime/pprof"
 	"sort"
 	"strings"
 	"sync"
@@ -42,7 +47,38 @@ var alphabet = []sym{
 	{"CAT", []byte{0x7e}}, {"CATPUSHDATA", []byte{0x89}}, {"SUBSTR", []byte{0x7f}}, {"LEFT", []byte{0x80}}, {"RIGHT", []byte{0x81}}, {"SIZE", []byte{0x82}},
 	{"INVERT", []byte{0x83}}, {"AND", []byte{0x84}}, {"OR", []byte{0x85}}, {"XOR", []byte{0x86}}, {"EQUAL", []byte{0x87}},
 	{"SHA3", []byte{0xaa}}, {"CHECKPREDICATE", []byte{0xc0}}, {"PROGRAM", []byte{0xc4}},
+	{"1ADD", []byte{0x8b}}, {"ADD", []byte{0x93}}, {"NUMEQUAL", []byte{0x9c}},
 }
+
+// every single-byte instruction the reference decides (the alphabet's opcodes, the rest of the
+// stack / splice / bitwise groups, ALL numeric opcodes, both hashes): the instruction under test
+// of the two structured families
+var singleOps = func() []byte {
+	var out []byte
+	add := func(a, b int) {
+		for o := a; o <= b; o++ {
+			out = append(out, byte(o))
+		}
+	}
+	add(0x61, 0x61)                           // NOP
+	add(0x69, 0x6f)                           // VERIFY FAIL TOALTSTACK FROMALTSTACK 2DROP 2DUP 3DUP
+	add(0x73, 0x89)                           // IFDUP DEPTH DROP DUP NIP OVER PICK ROLL ROT SWAP TUCK CAT SUBSTR LEFT RIGHT SIZE INVERT AND OR XOR EQUAL EQUALVERIFY CATPUSHDATA
+	add(0x8b, 0x8e)                           // 1ADD 1SUB 2MUL 2DIV
+	add(0x91, 0xa5)                           // NOT 0NOTEQUAL ADD SUB MUL DIV MOD LSHIFT RSHIFT BOOLAND BOOLOR NUMEQUAL NUMEQUALVERIFY NUMNOTEQUAL LESSTHAN GREATERTHAN LESSTHANOREQUAL GREATERTHANOREQUAL MIN MAX WITHIN
+	out = append(out, 0xa8, 0xaa, 0xc0, 0xc4) // SHA256 SHA3 CHECKPREDICATE PROGRAM
+	return out
+}()
+
+// prefixes that leave a second reference to an argument's bytes on a stack (the VM pushes the same
+// slice again, it does not copy)
+var copyMakers = []sym{
+	{"", nil}, {"DUP", []byte{0x76}}, {"OVER", []byte{0x78}}, {"1 PICK", []byte{0x51, 0x79}}, {"TUCK", []byte{0x7d}},
+	{"2DUP", []byte{0x6e}}, {"DUP TOALTSTACK", []byte{0x76, 0x6b}},
+}
+
+// child limits of the CHECKPREDICATE family: 0 = everything the parent has; 6 and 40 make the child
+// run out of gas inside an instruction (after its first charge / after it took its operands)
+var childLimits = [][]byte{{0x00}, {0x56}, {0x01, 0x28}}
 
 var opNames = map[byte]string{0x04: "DATA_4", 0x01: "DATA_1", 0xe1: "NOPxe1", 0xe2: "NOPxe2", 0xe3: "NOPxe3", 0xe4: "NOPxe4"}
 
@@ -52,23 +88,46 @@ func init() {
 			opNames[s.enc[0]] = s.name
 		}
 	}
+	fillOpNames()
 }
+
+var opNameTab [256]string
 
 func opName(b byte) string {
-	if n, ok := opNames[b]; ok {
-		return strings.ToLower(n)
+	if opNameTab[b] == "" {
+		panic("opName before init")
 	}
-	return fmt.Sprintf("op%02x", b)
+	return opNameTab[b]
 }
 
-var argLens = []int{4, 1, 33, 0} // enumeration order: the first witness reported is not the degenerate empty item
+func fillOpNames() {
+	for i := 0; i < 256; i++ {
+		b := byte(i)
+		if n, ok := opNames[b]; ok {
+			opNameTab[b] = strings.ToLower(n)
+		} else if n := vm.Op(b).String(); n != "" {
+			opNameTab[b] = strings.ToLower(n)
+		} else {
+			opNameTab[b] = fmt.Sprintf("op%02x", b)
+		}
+	}
+}
+
+// 32 is the widest number: in scheme 0 the first such item is a valid 255-bit number (too big for
+// an index or a size: bad value AFTER the conversion), in schemes 1 and 2 it has bit 255 set
+// (range error inside the conversion); 33 is refused before the conversion.
+var argLens = []int{4, 1, 32, 33, 0} // enumeration order: the first witness reported is not the degenerate empty item
 
 // argument content: scheme 0 is number-friendly (1 = 01, 4 = 02000000), scheme 1 makes every
-// byte of every item distinct so that any overwrite is visible.
+// byte of every item distinct so that any overwrite is visible, scheme 2 depends on the length
+// only: items of one length are equal and a shorter item is a prefix of a longer one, so that a
+// caller can supply them as the same bytes (layout 3).
 func argBytes(scheme, idx, n int) []byte {
 	b := make([]byte, n)
 	for j := range b {
-		if scheme == 0 {
+		if scheme == 2 {
+			b[j] = byte(0x90 + j)
+		} else if scheme == 0 {
 			switch n {
 			case 1:
 				b[j] = 1
@@ -120,8 +179,10 @@ type snap struct {
 	err  string // eOK, or the class of the error that ends the run at this step
 	data []string
 	alt  []string
-	keep int // number of bottom data-stack items the instruction leaves untouched
+	keep int // number of bottom data-stack items the instruction leaves untouched (also when it fails)
 	gas  int64
+	// number of bottom alt-stack items the instruction leaves untouched
+	keepAlt int
 }
 
 type trace struct {
@@ -131,9 +192,34 @@ type trace struct {
 }
 
 type caseIn struct {
-	prog   []byte
-	args   [][]byte
-	scheme int
+	prog    []byte
+	args    [][]byte
+	scheme  int
+	layouts []int
+	gas     int64
+}
+
+type argList struct {
+	items   [][]byte
+	scheme  int
+	layouts []int
+	cost    int64 // what the VM charges for taking the arguments and the state item
+}
+
+// gas left for the program in the tight-budget runs of family 1: the instruction under test runs
+// out of gas at its first charge, after it took its operands, or while pushing its result
+var tightGas = []int64{3, 12, 48}
+
+// shares: some argument's value occurs inside another argument (empty items excepted).
+func shares(items [][]byte) bool {
+	for i, a := range items {
+		for j := 0; j < len(items) && len(a) > 0; j++ {
+			if j != i && bytes.Contains(items[j], a) {
+				return true
+			}
+		}
+	}
+	return false
 }
 
 type found struct {
@@ -151,11 +237,20 @@ type worker struct {
 	spareWrites int
 	verified    int
 	aliasable   int
+	failedSeen  int
+	programs    [3]int
 	classes     map[string]int
 	found       map[string]found
 	samples     []map[string]interface{}
 	infra       string
-	buf         []byte
+	// scratch reused from case to case (a trace is dead once its case is finished)
+	shared    []byte    // the caller's one buffer of layouts 1-3, rewritten completely for every run
+	argv      [3][]byte // the argument slice headers handed to the VM
+	statev    [1][]byte
+	stepsBuf  []snap
+	pool      []string // backing store of the trace's stack snapshots
+	before    []string
+	beforeAlt []string
 }
 
 func newWorker() *worker {
@@ -178,7 +273,8 @@ func hexstrs(items []string) []string {
 	return out
 }
 
-var layoutNames = []string{"independent exact-capacity buffers", "sub-slices of one buffer [program|args|spare]", "sub-slices of one buffer [program|args|state|spare]"}
+var layoutNames = []string{"independent exact-capacity buffers", "sub-slices of one buffer [program|args|spare]", "sub-slices of one buffer [program|args|state|spare]",
+	"sub-slices of one buffer [program|args|state|spare], an argument whose value occurs inside another argument is handed out as those same bytes"}
 
 func (w *worker) report(key, what string, c caseIn, layout, step int, extra map[string]interface{}) {
 	if _, ok := w.found[key]; ok {
@@ -186,7 +282,7 @@ func (w *worker) report(key, what string, c caseIn, layout, step int, extra map[
 	}
 	dis, _ := vm.Disassemble(c.prog)
 	rec := map[string]interface{}{"program": ev.Hex(c.prog), "disasm": dis, "args": hexes(c.args), "state": ev.Hex(stateItem),
-		"layout": layoutNames[layout], "step": step}
+		"layout": layoutNames[layout], "step": step, "gas_limit": c.gas}
 	for k, v := range extra {
 		rec[k] = v
 	}
@@ -212,6 +308,7 @@ func exact(b []byte) []byte {
 
 func (w *worker) build(c caseIn, layout int) mem {
 	var m mem
+	m.args = w.argv[:0]
 	if layout == 0 {
 		m.prog = exact(c.prog)
 		for _, a := range c.args {
@@ -220,14 +317,39 @@ func (w *worker) build(c caseIn, layout int) mem {
 		m.state = exact(stateItem)
 		return m
 	}
-	buf := make([]byte, 0, len(c.prog)+3*33+len(stateItem)+spareLen)
+	if need := len(c.prog) + 3*33 + len(stateItem) + spareLen; cap(w.shared) < need {
+		w.shared = make([]byte, 0, need+64)
+	}
+	buf := w.shared[:0]
 	buf = append(buf, c.prog...)
 	m.progEnd = len(buf)
-	for _, a := range c.args {
-		buf = append(buf, a...)
+	// layout 3: an argument whose value occurs inside another argument of the list (an equal one
+	// that comes first, or a longer one anywhere) is not stored again: the caller hands out the
+	// bytes of that other argument
+	var starts, host [3]int
+	for i, a := range c.args {
+		host[i] = -1
+		for j := 0; j < len(c.args) && layout == 3 && len(a) > 0; j++ {
+			if j != i && (len(c.args[j]) > len(a) || j < i) && bytes.Contains(c.args[j], a) {
+				host[i] = j
+				break
+			}
+		}
+		if host[i] < 0 {
+			starts[i] = len(buf)
+			buf = append(buf, a...)
+		}
+	}
+	for i, a := range c.args {
+		if j := host[i]; j >= 0 {
+			for host[j] >= 0 { // a host that is itself stored inside a longer / earlier one
+				j = host[j]
+			}
+			starts[i] = starts[j] + bytes.Index(c.args[j], a)
+		}
 	}
 	m.argsEnd = len(buf)
-	if layout == 2 {
+	if layout >= 2 {
 		buf = append(buf, stateItem...)
 	}
 	m.stateEnd = len(buf)
@@ -237,12 +359,10 @@ func (w *worker) build(c caseIn, layout int) mem {
 	m.buf = buf
 	// what the decoder hands out: two-index sub-slices whose capacity runs to the end of the buffer
 	m.prog = buf[0:m.progEnd]
-	off := m.progEnd
-	for _, a := range c.args {
-		m.args = append(m.args, buf[off:off+len(a)])
-		off += len(a)
+	for i, a := range c.args {
+		m.args = append(m.args, buf[starts[i]:starts[i]+len(a)])
 	}
-	if layout == 2 {
+	if layout >= 2 {
 		m.state = buf[m.argsEnd:m.stateEnd]
 	} else {
 		m.state = exact(stateItem)
@@ -289,6 +409,14 @@ func sameItems(impl [][]byte, ref []string) int { // index of the first differin
 	return -1
 }
 
+// keepStrings copies a stack into the trace's backing store (a grown store leaves the earlier
+// snapshots in the old array, which stays valid).
+func (w *worker) keepStrings(st []string) []string {
+	n := len(w.pool)
+	w.pool = append(w.pool, st...)
+	return w.pool[n:len(w.pool):len(w.pool)]
+}
+
 func commonPrefix(a, b []string) int {
 	n := 0
 	for n < len(a) && n < len(b) && a[n] == b[n] {
@@ -297,15 +425,19 @@ func commonPrefix(a, b []string) int {
 	return n
 }
 
-// evalCase runs one (program, argument list, scheme) in the three layouts.
+// evalCase runs one (program, argument list, scheme) in the layouts of the argument list
+// (layout 0 first: it records the reference trace).
 func (w *worker) evalCase(c caseIn, verify bool) {
 	w.cases++
 	var tr trace
-	for layout := 0; layout < 3; layout++ {
+	tr.steps, w.pool = w.stepsBuf[:0], w.pool[:0]
+	for _, layout := range c.layouts {
 		if !w.runLayout(c, layout, &tr, verify) {
+			w.stepsBuf = tr.steps
 			return
 		}
 	}
+	w.stepsBuf = tr.steps
 	w.classes[tr.final]++
 	ok := 0
 	for _, s := range tr.steps {
@@ -331,8 +463,9 @@ func (w *worker) evalCase(c caseIn, verify bool) {
 func (w *worker) runLayout(c caseIn, layout int, tr *trace, verify bool) bool {
 	w.runs++
 	m := w.build(c, layout)
-	w.ctx.Code, w.ctx.Arguments, w.ctx.StateData = m.prog, m.args, [][]byte{m.state}
-	d, err := vm.VerifC07New(w.ctx, gasLimit)
+	w.statev[0] = m.state
+	w.ctx.Code, w.ctx.Arguments, w.ctx.StateData = m.prog, m.args, w.statev[:]
+	d, err := vm.VerifC07New(w.ctx, c.gas)
 	if err != nil {
 		w.infra = fmt.Sprintf("preamble failed: %v", err)
 		return false
@@ -340,7 +473,7 @@ func (w *worker) runLayout(c caseIn, layout int, tr *trace, verify bool) bool {
 	var ref *rvm
 	gasOK := true
 	if layout == 0 {
-		ref = &rvm{prog: string(c.prog), code: string(c.prog), run: gasLimit, gasOK: &gasOK}
+		ref = &rvm{prog: string(c.prog), code: string(c.prog), run: c.gas, gasOK: &gasOK}
 		ref.alt = []string{string(stateItem)}
 		for _, a := range c.args {
 			ref.data = append(ref.data, string(a))
@@ -381,9 +514,9 @@ func (w *worker) runLayout(c caseIn, layout int, tr *trace, verify bool) bool {
 				pc += ln
 			}
 		}
-		var before []string
 		if layout == 0 {
-			before = append([]string{}, ref.data...)
+			w.before = append(w.before[:0], ref.data...)
+			w.beforeAlt = append(w.beforeAlt[:0], ref.alt...)
 		}
 		serr := d.Step()
 		w.steps++
@@ -408,8 +541,8 @@ func (w *worker) runLayout(c caseIn, layout int, tr *trace, verify bool) bool {
 				w.infra = fmt.Sprintf("reference does not model opcode %02x of program %x", opc, c.prog)
 				return false
 			}
-			tr.steps = append(tr.steps, snap{op: opc, err: re, data: append([]string{}, ref.data...), alt: append([]string{}, ref.alt...),
-				keep: commonPrefix(before, ref.data), gas: d.RunLimit()})
+			tr.steps = append(tr.steps, snap{op: opc, err: re, data: w.keepStrings(ref.data), alt: w.keepStrings(ref.alt),
+				keep: commonPrefix(w.before, ref.data), keepAlt: commonPrefix(w.beforeAlt, ref.alt), gas: d.RunLimit()})
 		}
 		if k >= len(tr.steps) {
 			w.report("runs-longer-in-layout", fmt.Sprintf("layout %q executes more instructions than the run on independent buffers", layoutNames[layout]), c, layout, k, extra(k, ic))
@@ -426,7 +559,11 @@ func (w *worker) runLayout(c caseIn, layout int, tr *trace, verify bool) bool {
 			if spareOnly {
 				w.spareWrites++
 			} else {
-				w.report(blame+"-aliases-neighbour", fmt.Sprintf("%s (instruction %d) overwrote the caller's %s bytes", strings.ToUpper(name), k, region), c, layout, k,
+				key, what := blame+"-aliases-neighbour", fmt.Sprintf("%s (instruction %d) overwrote the caller's %s bytes", strings.ToUpper(name), k, region)
+				if ic != eOK {
+					key, what = "memory-modified-on-"+ic+"-error", fmt.Sprintf("%s (instruction %d) failed (%s) and left the caller's %s bytes changed", strings.ToUpper(name), k, ic, region)
+				}
+				w.report(key, what, c, layout, k,
 					func() map[string]interface{} {
 						e := extra(k, ic)
 						e["damaged_region"] = region
@@ -446,6 +583,23 @@ func (w *worker) runLayout(c caseIn, layout int, tr *trace, verify bool) bool {
 			if ic != eUnexpected && d.RunLimit() != s.gas {
 				w.report("gas-differs-across-layouts", fmt.Sprintf("failing %s (instruction %d): gas left %d, on independent buffers %d", strings.ToUpper(name), k, d.RunLimit(), s.gas), c, layout, k, extra(k, ic))
 				return false
+			}
+			// the items below the failed instruction's operands are still on the stacks (copies of
+			// an operand made by DUP/OVER/PICK/TUCK share its bytes): they must have kept their values.
+			// s.data / s.alt are the reference's stacks at the point of failure; their first keep
+			// items are the ones the instruction did not get to.
+			w.failedSeen++
+			for which, pair := range [2]struct {
+				impl [][]byte
+				ref  []string
+			}{{d.DataStack(), s.data[:s.keep]}, {d.AltStack(), s.alt[:s.keepAlt]}} {
+				for i := 0; i < len(pair.impl) && i < len(pair.ref); i++ {
+					if string(pair.impl[i]) != pair.ref[i] {
+						e := extra(k, ic)
+						w.report("memory-modified-on-"+ic+"-error", fmt.Sprintf("%s (instruction %d) failed (%s) and left %s stack item %d changed", strings.ToUpper(name), k, ic, [2]string{"data", "alt"}[which], i), c, layout, k, e)
+						return false
+					}
+				}
 			}
 			k++
 			break
@@ -507,8 +661,9 @@ func (w *worker) runLayout(c caseIn, layout int, tr *trace, verify bool) bool {
 	if verify {
 		w.verified++
 		m2 := w.build(c, layout)
-		w.ctx.Code, w.ctx.Arguments, w.ctx.StateData = m2.prog, m2.args, [][]byte{m2.state}
-		g, verr := vm.Verify(w.ctx, gasLimit)
+		w.statev[0] = m2.state
+		w.ctx.Code, w.ctx.Arguments, w.ctx.StateData = m2.prog, m2.args, w.statev[:]
+		g, verr := vm.Verify(w.ctx, c.gas)
 		vc := classOf(verr)
 		if vc != final || (vc != eUnexpected && g != d.RunLimit()) {
 			w.infra = fmt.Sprintf("step driver disagrees with vm.Verify on program %x args %x layout %d: driver (%s, %d) Verify (%s, %d)", c.prog, c.args, layout, final, d.RunLimit(), vc, g)
@@ -536,13 +691,18 @@ func main() {
 	// garbage instead of once per ~4 MB (stop-the-world pauses dominate on a loaded machine)
 	ballast = make([]byte, 200<<20)
 	debug.SetGCPercent(100)
+	if f := os.Getenv("VERIF_CPUPROFILE"); f != "" {
+		fh, _ := os.Create(f)
+		pprof.StartCPUProfile(fh)
+	}
 	run := ev.Start("C06", "exploration")
 	maxLen := run.Pick(3, 4)
 
-	// argument lists: 1-3 items of lengths {0,1,4,33}, two content schemes
-	var argLists [][][]byte
-	var argScheme []int
-	for scheme := 1; scheme >= 0; scheme-- {
+	// argument lists: 1-3 items of lengths {0,1,4,32,33}, three content schemes. Layouts 0-2 for
+	// schemes 0 and 1; layout 3 for every list in which a value occurs inside an earlier one;
+	// scheme 2 exists for layout 3 (its lists without such a pair add nothing to scheme 1).
+	var argLists []argList
+	for _, scheme := range []int{1, 2, 0} {
 		for n := 1; n <= 3; n++ {
 			idx := make([]int, n)
 			for {
@@ -550,8 +710,20 @@ func main() {
 				for i, li := range idx {
 					l = append(l, argBytes(scheme, i, argLens[li]))
 				}
-				argLists = append(argLists, l)
-				argScheme = append(argScheme, scheme)
+				al := argList{items: l, scheme: scheme, layouts: []int{0, 1, 2}}
+				if scheme == 2 {
+					al.layouts = []int{0}
+				}
+				if shares(l) {
+					al.layouts = append(al.layouts, 3)
+				}
+				al.cost = int64(8*(len(l)+1) + len(stateItem))
+				for _, it := range l {
+					al.cost += int64(len(it))
+				}
+				if len(al.layouts) > 1 {
+					argLists = append(argLists, al)
+				}
 				i := 0
 				for ; i < n; i++ {
 					idx[i]++
@@ -569,12 +741,67 @@ func main() {
 
 	var units []unit
 	add := func(f func(w *worker)) { units = append(units, unit{len(units), f}) }
-	evalProgram := func(w *worker, prog []byte, k int) {
-		for ai, args := range argLists {
-			w.evalCase(caseIn{prog: prog, args: args, scheme: argScheme[ai]}, k%len(argLists) == ai)
+	evalProgram := func(w *worker, family int, prog []byte, k int) {
+		w.programs[family]++
+		for ai, al := range argLists {
+			w.evalCase(caseIn{prog: prog, args: al.items, scheme: al.scheme, layouts: al.layouts, gas: gasLimit}, k%len(argLists) == ai)
+			if family == 1 {
+				for _, g := range tightGas {
+					w.evalCase(caseIn{prog: prog, args: al.items, scheme: al.scheme, layouts: al.layouts, gas: al.cost + g}, false)
+				}
+			}
 		}
 	}
-	add(func(w *worker) { evalProgram(w, []byte{}, 0) })
+	cat := func(parts ...[]byte) []byte {
+		var out []byte
+		for _, p := range parts {
+			out = append(out, p...)
+		}
+		return out
+	}
+	pushData := func(b []byte) []byte { return []byte(pushDataBytes(string(b))) }
+
+	// family 1: [copy-maker] <any single opcode>: every opcode and every way it fails (underflow,
+	// bad value, range, division by zero, verify, ...) on operands of which a second reference exists
+	add(func(w *worker) {
+		k := 0
+		for _, q := range copyMakers {
+			for _, op := range singleOps {
+				k++
+				evalProgram(w, 1, cat(q.enc, []byte{op}), k)
+			}
+		}
+	})
+	// family 2: [copy-maker] <n> <child program> <limit> CHECKPREDICATE: the same instruction fails
+	// inside a child (also by running out of gas); the parent goes on with `false` and still holds
+	// what the copy-maker left. Child programs: one opcode (thorough: also two alphabet symbols).
+	var children [][]byte
+	for _, op := range singleOps {
+		children = append(children, []byte{op})
+	}
+	if run.Thorough() {
+		for _, a := range alphabet {
+			for _, b := range alphabet {
+				children = append(children, cat(a.enc, b.enc))
+			}
+		}
+	}
+	for qi := range copyMakers {
+		for _, nArgs := range [][]byte{{0x51}, {0x52}, {0x00}} {
+			q, nArgs, qi := copyMakers[qi], nArgs, qi
+			add(func(w *worker) {
+				k := qi
+				for _, child := range children {
+					for _, limit := range childLimits {
+						k++
+						evalProgram(w, 2, cat(q.enc, nArgs, pushData(child), limit, []byte{0xc0}), k)
+					}
+				}
+			})
+		}
+	}
+	// family 0: every program of <= maxLen alphabet symbols
+	add(func(w *worker) { evalProgram(w, 0, []byte{}, 0) })
 	for n := 1; n <= maxLen; n++ {
 		for first := range alphabet {
 			n, first := n, first
@@ -590,7 +817,7 @@ func main() {
 							prog = append(prog, alphabet[s].enc...)
 						}
 						k++
-						evalProgram(w, prog, k)
+						evalProgram(w, 0, prog, k)
 						return
 					}
 					for s := range alphabet {
@@ -655,6 +882,10 @@ func main() {
 		run.Add("runs_writing_only_into_spare_capacity", w.spareWrites)
 		run.Add("cat_steps_with_spare_capacity_behind_left_operand", w.aliasable)
 		run.Add("verify_crosschecks", w.verified)
+		run.Add("failing_instructions_after_which_memory_was_compared", w.failedSeen)
+		run.Add("programs_alphabet", w.programs[0])
+		run.Add("programs_copy_then_single_opcode", w.programs[1])
+		run.Add("programs_copy_then_checkpredicate_child", w.programs[2])
 		for c, n := range w.classes {
 			classes[c] += n
 			run.Outcome(c)
@@ -672,12 +903,13 @@ func main() {
 	run.Set("alphabet_symbols", len(alphabet))
 	run.Set("max_program_instructions", maxLen)
 	run.Set("argument_lists", len(argLists))
-	run.Set("layouts", 3)
-	run.Set("rule", "every program of <= max_program_instructions symbols over the 27-symbol alphabet x every argument list of 1-3 items of lengths {0,1,4,33} in two content schemes (number-friendly, all-bytes-distinct) x 3 memory layouts; one state-data item on the alt stack. A case is a distinct (program, argument list); evaluations = VM runs (3 per case unless a violation stops the case); distinct_nontrivial = cases whose run completed >= 2 instructions. After EVERY instruction the data and alt stacks are compared with the value-semantics reference and the caller's program/argument/state bytes with their pristine copies; gas left after every instruction is compared across layouts.")
+	run.Set("layouts", 4)
+	run.Set("rule", "programs: (0) every program of <= max_program_instructions symbols over the 30-symbol alphabet (27 + 1ADD, ADD, NUMEQUAL); (1) [copy-maker] <op> for each of 7 copy-making prefixes (none, DUP, OVER, 1 PICK, TUCK, 2DUP, DUP TOALTSTACK) and each of the 60 single-byte opcodes the reference decides (all stack, splice, bitwise and numeric opcodes, SHA256, SHA3, CHECKPREDICATE, PROGRAM), run with gas 100000 and with 3, 12 and 48 gas left after the arguments; (2) [copy-maker] <n> <child> <limit> CHECKPREDICATE for n in {1,2,all}, child limit in {all,6,40} and every child of one such opcode (thorough: also every child of two alphabet symbols). Argument lists: 1-3 items of lengths {0,1,4,32,33}; content schemes: number-friendly (a valid 255-bit number at length 32), all-bytes-distinct (bit 255 set at length 32), and length-only (equal items, shorter = prefix of longer). Layouts: schemes 0/1 in 3 layouts (independent buffers, [program|args|spare], [program|args|state|spare]); every list in which a value occurs inside another one also with those arguments handed out as the same bytes (layout 3; the length-only scheme is run in layouts 0 and 3 only). One state-data item on the alt stack. A case is a distinct (program, argument list, gas); evaluations = VM runs; distinct_nontrivial = cases whose run completed >= 2 instructions. After EVERY instruction, the failing one included, the caller's program/argument/state bytes are compared with their pristine copies and the stack items the instruction does not touch with the value-semantics reference; after a successful one both stacks completely; gas left after every instruction is compared across layouts.")
 	run.Assume("the step driver (hooks/protocol/vm/zz_verif_c07.go) replicates Verify's preamble; cross-checked against vm.Verify (gas left, error class, caller bytes) on verify_crosschecks runs: every program on a rotating argument list in all three layouts")
-	run.Assume("reference interpreter (checks/c06/ref.go): immutable strings, written from the instruction-set statement; it decides every top-level instruction of the alphabet. The verdict of a CHECKPREDICATE child that contains an opcode outside the modelled subset, runs longer than 3000 instructions, or follows a point where the reference's gas is not trusted is taken from the implementation (counted) and must be identical in all layouts")
+	run.Assume("reference interpreter (checks/c06/ref.go): immutable strings, written from the instruction-set statement; it decides every top-level instruction of the alphabet and of the two families (numeric opcodes on math/big). The verdict of a CHECKPREDICATE child that contains an opcode outside the modelled subset, runs longer than 3000 instructions, or follows a point where the reference's gas is not trusted is taken from the implementation (counted) and must be identical in all layouts")
 	run.Assume("gas is compared across layouts, not against the reference (C08 owns the cost model); writes that land only in the spare capacity behind the last value are counted, not reported")
-	run.Assume("TxVersion absent (expansion opcodes are 1-gas NOPs); gas limit 100000")
+	run.Assume("a failed instruction is observed through the caller's memory and through the items the reference says it did not get to (its own operands are gone from the stack; copies of them made earlier are among the untouched items); a failure inside a CHECKPREDICATE child is observed by the parent, which goes on with false")
+	run.Assume("TxVersion absent (expansion opcodes are 1-gas NOPs); gas limit 100000 (family 1 also 3/12/48 above the cost of the arguments)")
 
 	keys := make([]string, 0, len(foundAll))
 	for k := range foundAll {
@@ -691,5 +923,6 @@ func main() {
 	if os.Getenv("VERIF_DEBUG") != "" {
 		fmt.Fprintf(os.Stderr, "elapsed %.1fs\n", time.Since(t0).Seconds())
 	}
+	pprof.StopCPUProfile()
 	run.Finish()
 }
